@@ -787,6 +787,16 @@ def c03(res, tier, seed, deep):
     hm = None
     # (1) single worker, exact
     reqs = [f"search {rnd.getrandbits(32)} {rnd.choice([1, 2, 3])} 1 - {rnd.choice([1, 2, 4])} {rnd.choice([4, 64])} 0 {f}" for f in fens]
+    # (1a) extreme material (legal positions with a legal move whose static evaluations exceed the mate scores: many queens
+    # / knights against a few men): the search must still report a line
+    over = ["6nk/6pp/8/8/8/8/QQQQQQQQ/KQQQQQQQ b - - 0 1", "6nk/6pp/8/8/8/8/QQQQQQQQ/KQQQQQQQ w - - 0 1",
+            "7k/6pp/NNNNN3/NNNNNNNN/NNNNNNNN/NNNNNNNN/NNNNNNNN/K1NNNNNN b - - 0 1",
+            "1QQQQQQQ/QQQQQQQQ/8/8/8/8/6pp/K5nk w - - 0 1", "kqqqqqqq/qqqqqqqq/8/8/8/8/6PP/6NK w - - 0 1"] + heavy_positions()[:6]
+    okl, _, _ = wee.run_driver(["legalpos " + f for f in over], jobs=2)
+    over = [f for f, (m, sp) in zip(over, okl) if sp == "1"]
+    res.tags["over_material_roots"] = len(over)
+    reqs += [f"search {rnd.getrandbits(32)} {d} 1 - 2 64 0 {f}" for f in over for d in (1, 2)]
+    fens = fens + over
     # (1b) the castling-through-attack family: the search must never put such a castle into a line
     fam = castle_transit_family(rnd, 4000 if tier == "thorough" else (1500 if deep else 300))
     ok, _, _ = wee.run_driver(["legalpos " + f for f in fam], jobs=8)
@@ -1126,6 +1136,9 @@ def c07(res, tier, seed, deep):
                      ("position fen 4k3/p6p/Pp4pP/1Pp2pP1/2Pp1P2/3P4/8/4K2R w - - 0 1", 1.0), ("go depth 4", 0), ("stop", 1.0)], False))
     sessions.append(("f2-mated-root", [("position fen 3R2k1/5ppp/8/8/8/8/8/4K3 b - - 0 1", 0), ("go depth 2", 0), ("isready", 0.3), ("stop", 0)], False))
     sessions.append(("book-and-eof", [("uci", 0), ("position startpos", 0), ("go depth 1", 0), ("position startpos moves e2e4", 0), (".state", 0), ("go", 0)], True))
+    # extreme material: a legal position with a legal move whose static evaluations exceed the mate scores (F10)
+    sessions.append(("f10-over-material", [("position fen 6nk/6pp/8/8/8/8/QQQQQQQQ/KQQQQQQQ b - - 0 1", 0), ("go depth 2", 0), ("isready", 0.5), ("stop", 0),
+                     ("position fen 7k/6pp/NNNNN3/NNNNNNNN/NNNNNNNN/NNNNNNNN/NNNNNNNN/K1NNNNNN b - - 0 1", 0), ("go depth 1", 0), ("stop", 0.5)], False))
     for i in range(n):
         sessions.append((f"random-{seed}-{i}", (lambda pl, r=random.Random(rnd.getrandbits(32)): uci_proc.gen_session(pl, r)), rnd.random() < 0.3))
     run_sessions(res, "sessions", sessions)
